@@ -72,6 +72,9 @@ type edit struct {
 }
 
 func kindInfo(kind string) sim.ResourceInfo {
+	if kind == "AltWidget" {
+		return sim.AltWidgetInfo
+	}
 	for _, ri := range sim.Catalog {
 		if ri.Kind == kind {
 			return ri
